@@ -388,7 +388,9 @@ class _Gen:
             if not c:
                 return False
             s = pick([{"py": "int", "v": "2"}, {"py": "float", "v": "0.5"},
-                      {"py": "int", "v": "-1"}, {"np": "f4", "v": "1.5"}])
+                      {"py": "int", "v": "-1"}, {"np": "f4", "v": "1.5"},
+                      {"np": "f8", "v": "0.1"}, {"np": "i8", "v": "3"},
+                      {"np": "i4", "v": "2"}])
             a = pick(c)
             real = {"scalar_add": "add", "scalar_mul": "mul", "scalar_rsub": "sub"}[op]
             if op == "scalar_rsub":
